@@ -1,8 +1,9 @@
 #!/bin/bash
 # regenerates harness/go.mod from /repo/go.mod (require block + replace of parquet-go must be carried over)
 set -e
-. /verif/env.sh
-cd /verif/harness
+cd "$(dirname "$0")"
+. ./env.sh
+cd harness
 {
   echo "module verif/harness"
   echo
